@@ -191,14 +191,112 @@ def sim_settings(rng, base, mode, *, big_tau=False, steps=None):
     return s
 
 
+# ----------------------------------------------------------------------------- input FORMS (the value is the same, the object differs)
+# initial state: what the caller hands to `initial_values` / `initial_state`
+X0_FORMS = ("arr_int", "arr_f64", "list_int", "list_float", "tuple_int", "tuple_float", "arr_i32", "scalar")
+NARROW_INT_FORMS = ("arr_i32",)
+# initial time.  The unchanged pygom needs a numpy scalar (`self._t0.tolist()` in `_jump`): the two Python forms are rejected there
+# with AttributeError, which is tagged and not judged; a tree that accepts them must give right answers.
+T0_FORMS = ("np_f64", "np_i64", "np_f32", "py_float", "py_int")
+SCALAR_TIME_KINDS = ("float", "int", "np_f64", "np_i64", "list1", "list1_int", "tuple1")
+GRID_KINDS = ("list", "tuple", "array", "list_int", "tuple_int", "array_int")
+
+
+def make_x0(values, form):
+    """the object handed to pygom for the initial state `values` (a list of Python ints kept by the harness)"""
+    vals = [int(v) for v in values]
+    if form == "scalar" and len(vals) == 1:
+        return vals[0]
+    return {"arr_int": lambda: np.array(vals), "arr_f64": lambda: np.array(vals, dtype=np.float64),
+            "list_int": lambda: list(vals), "list_float": lambda: [float(v) for v in vals],
+            "tuple_int": lambda: tuple(vals), "tuple_float": lambda: tuple(float(v) for v in vals),
+            "arr_i32": lambda: np.array(vals, dtype=np.int32), "scalar": lambda: np.array(vals)}[form or "arr_int"]()
+
+
+def make_t0(t0, form):
+    integral = float(t0) == int(t0)
+    form = form or "np_f64"
+    if form == "np_i64" and integral:
+        return np.int64(int(t0))
+    if form == "py_int" and integral:
+        return int(t0)
+    if form in ("py_float", "py_int"):
+        return float(t0)
+    if form == "np_f32" and float(np.float32(t0)) == float(t0):
+        return np.float32(t0)
+    return np.float64(t0)
+
+
+def time_spec(sim):
+    """{"kind", "values"} of a run; also reads the older fields (horizon_kind | grid + grid_kind) of stored cases"""
+    if sim.get("time"):
+        return sim["time"]
+    if sim.get("grid"):
+        return {"kind": sim.get("grid_kind", "list"), "values": list(sim["grid"])}
+    return {"kind": sim.get("horizon_kind", "float"), "values": [sim["T"]]}
+
+
+def time_obj(ts):
+    """the object handed to solve_stochast"""
+    k, v = ts["kind"], ts["values"]
+    if k in SCALAR_TIME_KINDS:
+        T = v[0]
+        return {"float": lambda: float(T), "int": lambda: int(T), "np_f64": lambda: np.float64(T), "np_i64": lambda: np.int64(int(T)),
+                "list1": lambda: [float(T)], "list1_int": lambda: [int(T)], "tuple1": lambda: (float(T),)}[k]()
+    return {"list": lambda: [float(g) for g in v], "tuple": lambda: tuple(float(g) for g in v), "array": lambda: np.array(v, float),
+            "list_int": lambda: [int(g) for g in v], "tuple_int": lambda: tuple(int(g) for g in v),
+            "array_int": lambda: np.array([int(g) for g in v])}[k]()
+
+
+def time_is_grid(ts):
+    """a one-element list / tuple is a horizon, a one-element ARRAY is a one-point grid (normalisation of solve_stochast)"""
+    return ts["kind"] in GRID_KINDS and (len(ts["values"]) > 1 or ts["kind"].startswith("array"))
+
+
+def lean_time_kind(ts):
+    k = ts["kind"]
+    return "number" if k in ("float", "int", "np_f64", "np_i64") else k.split("_")[0].replace("list1", "list").replace("tuple1", "tuple")
+
+
+def gen_scalar_time(r, T, kinds=SCALAR_TIME_KINDS):
+    k = r.choice(list(kinds))
+    if k in ("int", "np_i64", "list1_int"):
+        T = float(max(1, int(np.ceil(T))))
+    return {"kind": k, "values": [float(T)]}
+
+
+def gen_grid_time(r, t0, T, *, max_points=8, after_t0=0.1, past=(0.5, 1, 1, 3)):
+    """a grid of output times from t0 (or, with probability `after_t0`, from later) to t0 + (T-t0)*factor, float or integer valued"""
+    span = (T - t0) * r.choice(list(past))
+    n = r.randint(2, max_points)
+    k = r.choice(list(GRID_KINDS))
+    if k.endswith("_int"):
+        lo = int(np.ceil(t0)); hi = max(lo + 1, int(np.ceil(t0 + span)))
+        pts = sorted(set([lo, hi] + [r.randint(lo, hi) for _ in range(n - 2)]))
+        g = [float(v) for v in pts]
+    elif r.random() < 0.5:
+        g = [t0 + span * i / (n - 1) for i in range(n)]
+    else:
+        g = sorted(set([t0, t0 + span] + [t0 + span * r.random() for _ in range(n - 2)]))
+    if len(g) >= 3 and r.random() < after_t0:
+        g = g[1:]
+    return {"kind": k, "values": [float(v) for v in g]}
+
+
 def build_model(case):
+    """the real model of a case, configured as `case["sim"]` says; the objects handed over for the initial state and time are kept
+    on the instance (`_verif_x0_arg`, `_verif_t0_arg`) so that the caller can check afterwards that they were not written to"""
+    sim = case["sim"]
     model = pymodel.build(case["spec"], backend="lambda")
     model.parameters = {k: float(v) for k, v in case["params"].items()}
-    model.initial_values = (np.array(case["x0"]), np.float64(case["sim"]["t0"]))
-    if case["sim"].get("epsilon") is not None:
-        model._epsilon = case["sim"]["epsilon"]
-    if case["sim"].get("pre_tau") is not None:
-        model.pre_tau = case["sim"]["pre_tau"]
+    x0_arg = make_x0(case["x0"], sim.get("x0_form"))
+    t0_arg = make_t0(sim["t0"], sim.get("t0_form"))
+    model.initial_values = (x0_arg, t0_arg)
+    model._verif_x0_arg, model._verif_t0_arg = x0_arg, t0_arg
+    if sim.get("epsilon") is not None:
+        model._epsilon = sim["epsilon"]
+    if sim.get("pre_tau") is not None:
+        model.pre_tau = sim["pre_tau"]
     return model
 
 
@@ -315,9 +413,26 @@ def unbounded_adaptive_tau(tr, sim):
             break
     if rates is None or mu is None or s2 is None:
         return False
-    bound = float(sim.get("epsilon", 0.03)) * float(np.sum(rates))
+    bound = float(sim.get("epsilon") or 0.03) * float(np.sum(rates))
     cands = [bound / abs(m) for m in mu if m != 0] + [bound * bound / v for v in s2 if v != 0]
     return bool(cands) and min(cands) > 1e15
+
+
+def narrow_int_overflow(tr, x0, t0):
+    """True when an evaluator, called at the initial state during the run, returned something else than it returns for the same
+    state as float64: the state vector was handed over in a narrow integer dtype (int32) and a product overflowed.  Used only to
+    NAME the cause of an exception (signature); the exception itself is what is judged."""
+    x0f = np.array(x0, float)
+    for e in tr.log:
+        if e[0] != "fn" or not np.array_equal(e[2], x0f) or e[1] not in tr.evaluators:
+            continue
+        try:
+            ref = np.asarray(tr.evaluators[e[1]](x0f, e[3]), float)
+        except Exception:
+            continue
+        if ref.shape == np.asarray(e[4]).shape and not np.allclose(ref, e[4], rtol=1e-9, atol=1e-12):
+            return True
+    return False
 
 
 def segment(log, exact):
@@ -542,15 +657,288 @@ def tie_steps(model, case, jr, its, lims_json, mism, tags, max_report=3):
     return stats
 
 
+# ----------------------------------------------------------------------------- sessions: several calls on ONE model instance
+# The Lean model (Pygom/Stoch.lean `jump`, `gridRows`, Pygom/Seed.lean `runMany`) makes one path a pure function of
+# (configuration in force at the call, x0, t0, horizon, draws): nothing a previous call, a previous configuration, another
+# instance or the FORM of an argument did can enter (Props/C04 `path_start`, `runMany_all_start`, `exact_ignores_tau_config`).
+# The sessions below probe exactly that on the real code: calls are made one after the other on one instance, with
+# configuration left over from earlier calls, initial values re-assigned in other forms, a sibling instance simulated in
+# between; every returned object is KEPT and compared again at the end; a fresh instance must reproduce a call's result.
+class Call:
+    """one `solve_stochast` call of a session: .index .op .sim (effective settings) .case (case with the x0 / sim in force)
+    .tr (Trace) .ts (time spec) .tobj (object handed over) .is_grid .grid (floats) .exact .x0 .kept .snap"""
+
+
+def default_session(case):
+    sim = case["sim"]
+    return [{"op": "run", "exact": sim["mode"] == "exact", "time": time_spec(sim), "iterations": 2, "np_seed": sim["np_seed"]}]
+
+
+def _same_obj(a, b):
+    if isinstance(a, np.ndarray) or isinstance(b, np.ndarray):
+        return isinstance(a, np.ndarray) and isinstance(b, np.ndarray) and a.dtype == b.dtype and a.shape == b.shape and np.array_equal(a, b)
+    return type(a) is type(b) and a == b
+
+
+def _flatten_result(res):
+    """the arrays of what solve_stochast returned, in a fixed order (the objects themselves, not copies)"""
+    out = []
+    if res is None:
+        return out
+    for part in res:
+        if isinstance(part, np.ndarray):
+            out.append(part)
+        else:
+            out.extend(list(part))
+    return out
+
+
+def _same_result(a, b):
+    fa, fb = _flatten_result(a), _flatten_result(b)
+    if len(fa) != len(fb):
+        return False, "different number of arrays"
+    for k, (u, v) in enumerate(zip(fa, fb)):
+        u, v = np.asarray(u), np.asarray(v)
+        if u.shape != v.shape:
+            return False, "array %d: shapes %s and %s" % (k, u.shape, v.shape)
+        if not np.array_equal(u, v):
+            w = np.argwhere(np.asarray(u != v)).tolist()[:1]
+            return False, "array %d differs at %s: %s vs %s" % (k, w, u.ravel()[:6].tolist(), v.ravel()[:6].tolist())
+    return True, ""
+
+
+def _configure(model, cfg):
+    model.pre_tau = cfg["pre_tau"]
+    model._epsilon = cfg["epsilon"] if cfg["epsilon"] is not None else 0.03
+
+
+def run_sibling(op, default_case):
+    """another live instance (same definition with other values, or another definition with overlapping names) is configured
+    and simulated; nothing of it is judged - the instance under test must not notice"""
+    c = dict(op.get("case") or default_case)
+    c["x0"] = op.get("x0", c["x0"]); c["params"] = op.get("params", c["params"])
+    c["sim"] = {"t0": op.get("t0", 0.0), "pre_tau": op.get("pre_tau"), "epsilon": op.get("epsilon"), "x0_form": op.get("x0_form"),
+                "t0_form": None}
+    try:
+        m = build_model(c)
+        traced_run(m, time_obj(op["time"]), bool(op.get("exact")), op.get("np_seed", 0), iterations=1, max_steps=60)
+    except Exception:
+        pass
+
+
+def run_session(case, judge, prop, tags, mism, viol, max_steps=MAX_STEPS):
+    """run the ops of `case["session"]` (default: one call described by case["sim"]) on one instance.
+    `judge(call, model) -> bool` is the property's own tie + direct oracle for one call (False ends the session).
+    Direct oracles of this function (no Lean): caller's arrays unchanged, model.initial_state/time unchanged, returned
+    arrays unchanged by later operations, a repeated call reproduces the earlier one, a fresh instance reproduces a call."""
+    import copy
+    sim0 = case["sim"]
+    ops = case.get("session") or default_session(case)
+    model = build_model(case)
+    cur = {"x0": [int(v) for v in case["x0"]], "t0": float(sim0["t0"]), "pre_tau": sim0.get("pre_tau"), "epsilon": sim0.get("epsilon"),
+           "x0_form": sim0.get("x0_form") or "arr_int", "t0_form": sim0.get("t0_form") or "np_f64"}
+    handed = [("initial state (%s)" % cur["x0_form"], model._verif_x0_arg, copy.deepcopy(model._verif_x0_arg))]
+    calls = []
+    sigmode = lambda c: c.sim["mode"].split("_")[0]
+    tags.append("x0_form:" + cur["x0_form"]); tags.append("t0_form:" + cur["t0_form"])
+    if len([o for o in ops if o["op"] == "run"]) > 1:
+        tags.append("session")
+
+    def v(what, kind, detail, call=None):
+        viol.append({"what": what, "signature": "%s:%s%s" % (prop, kind, (":" + sigmode(call)) if call is not None else ""), "detail": detail})
+
+    def check_handed(when, call=None):
+        ok = True
+        for label, obj, snap in handed:
+            if not _same_obj(obj, snap):
+                v("an object the caller passed in was written to", "caller-argument-modified",
+                  "%s: %s now reads %s, was %s" % (when, label, np.asarray(obj).tolist(), np.asarray(snap).tolist()), call)
+                ok = False
+        try:
+            mx = np.asarray(model.initial_state, float).ravel()
+            mt = float(model.initial_time)
+        except Exception as exc:
+            mx, mt = None, None
+        if mx is None or not (np.array_equal(mx, np.array(cur["x0"], float)) and mt == cur["t0"]):
+            v("the initial state / time held by the model is no longer the one that was assigned", "initial-values-modified",
+              "%s: model.initial_state=%s initial_time=%r, assigned %s at t0=%r (form %s)"
+              % (when, None if mx is None else mx.tolist(), mt, cur["x0"], cur["t0"], cur["x0_form"]), call)
+            ok = False
+        return ok
+
+    for i, op in enumerate(ops):
+        kind = op["op"]
+        if kind == "set_pre_tau":
+            model.pre_tau = op["value"]; cur["pre_tau"] = op["value"]
+            tags.append("op:set_pre_tau" if op["value"] is not None else "op:clear_pre_tau")
+        elif kind == "set_epsilon":
+            model._epsilon = op["value"]; cur["epsilon"] = op["value"]
+            tags.append("op:set_epsilon")
+        elif kind == "set_iv":
+            x0_arg = make_x0(op["x0"], op.get("x0_form")); t0_arg = make_t0(op["t0"], op.get("t0_form"))
+            if op.get("via") == "separate":
+                model.initial_state = x0_arg; model.initial_time = t0_arg
+            else:
+                model.initial_values = (x0_arg, t0_arg)
+            changed = [int(a) for a in op["x0"]] != cur["x0"] or float(op["t0"]) != cur["t0"]
+            cur.update({"x0": [int(a) for a in op["x0"]], "t0": float(op["t0"]), "x0_form": op.get("x0_form") or "arr_int",
+                        "t0_form": op.get("t0_form") or "np_f64"})
+            handed.append(("initial state (%s, op %d)" % (cur["x0_form"], i), x0_arg, copy.deepcopy(x0_arg)))
+            tags.append("op:set_iv:" + ("other_values" if changed else "same_values"))
+            tags.append("x0_form:" + cur["x0_form"]); tags.append("t0_form:" + cur["t0_form"])
+        elif kind == "sibling":
+            run_sibling(op, case)
+            tags.append("op:sibling:" + ("other_definition" if op.get("case") else "same_definition"))
+        elif kind == "run":
+            c = Call()
+            c.index, c.op, c.exact, c.ts = i, op, bool(op["exact"]), op["time"]
+            c.is_grid = time_is_grid(c.ts)
+            c.grid = [float(g) for g in c.ts["values"]] if c.is_grid else None
+            mode = "exact" if c.exact else ("tau_adaptive" if cur["pre_tau"] is None else "tau_fixed")
+            c.sim = {"mode": mode, "t0": cur["t0"], "T": float(c.ts["values"][-1]), "np_seed": op["np_seed"], "epsilon": cur["epsilon"],
+                     "pre_tau": cur["pre_tau"], "time": c.ts, "grid": c.grid, "grid_kind": c.ts["kind"], "x0_form": cur["x0_form"],
+                     "t0_form": cur["t0_form"], "iterations": op.get("iterations", 2)}
+            c.x0 = list(cur["x0"])
+            c.case = dict(case, x0=c.x0, sim=c.sim)
+            c.leftover = c.exact and (cur["pre_tau"] is not None or cur["epsilon"] is not None)
+            c.tobj = time_obj(c.ts)
+            handed_t = ("time argument (%s, op %d)" % (c.ts["kind"], i), c.tobj, copy.deepcopy(c.tobj))
+            tags.append("time:" + c.ts["kind"])
+            if c.is_grid and c.grid[0] > cur["t0"]: tags.append("grid_starts_after_t0")
+            if c.leftover: tags.append("exact_with_leftover_tau_config")
+            if len(calls): tags.append("call>=2:" + mode.split("_")[0])
+            c.tr = traced_run(model, c.tobj, c.exact, op["np_seed"], iterations=c.sim["iterations"], max_steps=max_steps)
+            if (isinstance(c.tr.error, AttributeError) and "tolist" in str(c.tr.error) and cur["t0_form"] in ("py_float", "py_int")):
+                # the unchanged pygom does not support a Python number as initial time in stochastic simulation
+                tags.append("rejected_form:t0:" + cur["t0_form"])
+                return calls
+            go_on = judge(c, model)
+            c.kept = _flatten_result(c.tr.result)
+            c.snap = [np.array(a, copy=True) for a in c.kept]
+            calls.append(c)
+            handed.append(handed_t)
+            ok = check_handed("after call %d (op %d, %s, %s)" % (len(calls), i, mode, c.ts["kind"]), c)
+            if not go_on or not ok:
+                break
+            if op.get("repeat_of") is not None and c.tr.result is not None:
+                first = [k for k in calls if k.index == op["repeat_of"]]
+                if first and first[0].tr.result is not None:
+                    same, why = _same_result(first[0].tr.result, c.tr.result)
+                    tags.append("probe:repeat")
+                    if not same:
+                        v("a call repeated with the first call's configuration, initial values, horizon and seed does not reproduce it",
+                          "history-dependent-path:repeat", "op %d vs op %d: %s" % (first[0].index, i, why), c)
+            if op.get("fresh_ref") and c.tr.result is not None:
+                fc = dict(case, x0=c.x0, sim=dict(c.sim))
+                fm = build_model(fc)
+                _configure(fm, cur)
+                ftr = traced_run(fm, time_obj(c.ts), c.exact, op["np_seed"], iterations=c.sim["iterations"], max_steps=max_steps)
+                tags.append("probe:fresh_reference")
+                if ftr.result is not None:
+                    same, why = _same_result(ftr.result, c.tr.result)
+                    if not same:
+                        v("a freshly built model with the same configuration, initial values, horizon and seed returns another path",
+                          "history-dependent-path:fresh", "op %d (%s): %s" % (i, mode, why), c)
+        else:
+            raise ValueError("unknown session op %r" % kind)
+    # every returned object, again, after everything that followed
+    for c in calls:
+        for k, (a, b) in enumerate(zip(c.kept, c.snap)):
+            if not (np.asarray(a).shape == b.shape and np.array_equal(np.asarray(a), b)):
+                v("an array returned by an earlier call was changed by later operations on the model", "returned-array-overwritten",
+                  "call at op %d, array %d: returned %s, now %s" % (c.index, k, b.ravel()[:8].tolist(), np.asarray(a).ravel()[:8].tolist()), c)
+                break
+    return calls
+
+
+def alt_x0(r, x0, lims=None):
+    """another integer initial state for the same model (permuted, one component changed), inside the declared limits"""
+    y = list(x0)
+    r.shuffle(y)
+    k = r.randrange(len(y))
+    y[k] = max(0, y[k] + r.choice([1, 2, 5]))
+    if y == list(x0):
+        y[k] += 1
+    if lims is not None and within(lims, y):
+        return list(x0)
+    return y
+
+
+def gen_session(r, base, sim, *, lims=None, grid_share=0.35, exact_share=0.5, runs=(3, 5), sibling_base=None, x0_forms=X0_FORMS):
+    """ops of one session for a generated model: every random choice from `r`, the result is plain JSON"""
+    t0, T = float(sim["t0"]), float(sim["T"])
+    tot = max(base["tot0"], 1e-3)
+    nS = len(base["x0"])
+    forms = [f for f in x0_forms if f != "scalar" or nS == 1]
+    cfg = {"x0": list(base["x0"]), "t0": t0, "pre_tau": sim.get("pre_tau"), "epsilon": sim.get("epsilon"),
+           "x0_form": sim.get("x0_form") or "arr_int", "t0_form": sim.get("t0_form") or "np_f64"}
+    ops, first = [], None
+
+    def tau_value():
+        return float(min(r.choice([0.3, 1, 2, 5]) / tot, T - t0))
+
+    def set_iv(x0, t0v, x0_form=None, t0_form=None):
+        op = {"op": "set_iv", "x0": list(x0), "t0": t0v, "x0_form": x0_form or r.choice(forms),
+              "t0_form": t0_form or r.choice(["np_f64", "np_f64", "np_i64", "np_f32"]), "via": r.choice(["values", "values", "separate"])}
+        ops.append(op)
+        cfg.update({"x0": list(x0), "t0": t0v, "x0_form": op["x0_form"], "t0_form": op["t0_form"]})
+
+    n = r.randint(*runs)
+    for k in range(n):
+        u = r.random()
+        if u < 0.35:
+            cfg["pre_tau"] = tau_value(); ops.append({"op": "set_pre_tau", "value": cfg["pre_tau"]})
+        elif u < 0.5 and cfg["pre_tau"] is not None:
+            cfg["pre_tau"] = None; ops.append({"op": "set_pre_tau", "value": None})
+        if r.random() < 0.25:
+            cfg["epsilon"] = r.choice([0.01, 0.03, 0.1, 0.3]); ops.append({"op": "set_epsilon", "value": cfg["epsilon"]})
+        if k > 0 and r.random() < 0.4:
+            if r.random() < 0.5:
+                set_iv(cfg["x0"], cfg["t0"])                                      # same values, another object / form
+            else:
+                t_alt = cfg["t0"] + 1.0 if (r.random() < 0.4 and T - cfg["t0"] > 2.5) else cfg["t0"]
+                set_iv(alt_x0(r, base["x0"], lims) if r.random() < 0.7 else base["x0"], t_alt)
+        if k > 0 and r.random() < 0.3:
+            sop = {"op": "sibling", "x0": alt_x0(r, base["x0"], lims), "params": {p: float(v) * r.choice([0.5, 2.0]) for p, v in base["params"].items()},
+                   "t0": t0, "pre_tau": r.choice([None, tau_value()]), "epsilon": r.choice([None, 0.3]), "exact": r.random() < 0.5,
+                   "x0_form": r.choice(forms), "time": {"kind": "float", "values": [T]}, "np_seed": r.randrange(2 ** 31)}
+            if sibling_base is not None and r.random() < 0.5:
+                sop["case"] = {"spec": sibling_base["spec"], "meta": sibling_base["meta"], "x0": sibling_base["x0"], "params": sibling_base["params"]}
+                sop["x0"] = sibling_base["x0"]; sop["params"] = sibling_base["params"]
+                if len(sibling_base["x0"]) != 1 and sop["x0_form"] == "scalar":
+                    sop["x0_form"] = "arr_f64"
+            ops.append(sop)
+        exact = r.random() < exact_share
+        time = gen_grid_time(r, cfg["t0"], T) if r.random() < grid_share else gen_scalar_time(r, T)
+        op = {"op": "run", "exact": exact, "time": time, "iterations": r.choice([1, 2, 2, 3]), "np_seed": r.randrange(2 ** 31)}
+        ops.append(op)
+        if first is None:
+            first = (len(ops) - 1, dict(cfg), op)
+    if r.random() < 0.7:
+        ops[max(i for i, o in enumerate(ops) if o["op"] == "run")]["fresh_ref"] = True
+    if r.random() < 0.6 and n >= 2:
+        idx, c0, op0 = first
+        if cfg["pre_tau"] != c0["pre_tau"]:
+            ops.append({"op": "set_pre_tau", "value": c0["pre_tau"]})
+        if cfg["epsilon"] != c0["epsilon"]:
+            ops.append({"op": "set_epsilon", "value": c0["epsilon"] if c0["epsilon"] is not None else 0.03})
+        if (cfg["x0"], cfg["t0"]) != (c0["x0"], c0["t0"]) or r.random() < 0.5:
+            set_iv(c0["x0"], c0["t0"])
+        ops.append({"op": "run", "exact": op0["exact"], "time": op0["time"], "iterations": op0["iterations"], "np_seed": op0["np_seed"],
+                    "repeat_of": idx})
+    return ops
+
+
 # ----------------------------------------------------------------------------- direct oracles (no Lean)
-def oracle_c04(model, case, X, J, T, exact, finalT, truncated, its, lims, evaluators, viol, sig_extra=""):
+def oracle_c04(model, case, X, J, T, exact, finalT, truncated, its, lims, evaluators, viol, sig_extra="", where=""):
     """the property itself on the real output arrays"""
     x0 = np.array(case["x0"], float); t0 = case["sim"]["t0"]
     shape = "nS=%s,nE=%s" % ("1" if X.shape[1] == 1 else "n", "1" if (J.shape[1] if J.ndim == 2 else 0) == 1 else "n")
     mode = "exact" if exact else "tau"
 
     def v(what, kind, detail):
-        viol.append({"what": what, "signature": "C04:%s:%s:%s%s" % (kind, mode, shape, sig_extra), "detail": detail})
+        viol.append({"what": what, "signature": "C04:%s:%s:%s%s" % (kind, mode, shape, sig_extra),
+                     "detail": detail + ((" [" + where + "]") if where else "")})
 
     if not (np.array_equal(X[0], x0) and T[0] == t0):
         v("path does not start at the initial state/time", "start", "X[0]=%s T[0]=%r x0=%s t0=%r" % (X[0].tolist(), T[0], x0.tolist(), t0))
